@@ -19,6 +19,7 @@ RULE = (
     "Wagner = brute-force soft-ML over all even-weight words; BP soft output on a cycle-free graph = brute-force bitwise posterior LLRs; min-sum on a cycle-free graph = brute-force "
     "max-log marginals, = the one-iteration closed form with the configured scaling/offset, and invariant under positive rescaling. Distinct = (decoder set-up, input vector); "
     "non-trivial = non-zero message / random real vector."
+    " Added after the seeded-fault rounds: 16 generated trees and chain trees with interleaved check degrees in both tiers; one decoder object across batch sizes 1, all, 2, 5, 1, all; permuted 3-D views."
 )
 ASSUMPTIONS = [
     "tree clauses draw inputs with sum|L| <= 7 (exact arctanh; its tanh clamp 0.999 bites at ~7.6) and <= 2 (Taylor variant, an approximation by design)",
